@@ -255,8 +255,17 @@ func c20r4(r *R) {
 			if a, ok := x.X.(*ssa.Alloc); ok {
 				zero = len(storesTo(a)) == 0
 				for _, ref := range *a.Referrers() {
-					if _, isFA := ref.(*ssa.FieldAddr); isFA {
-						zero = false
+					if fa, isFA := ref.(*ssa.FieldAddr); isFA {
+						// a field written out as its zero value is still the zero value
+						for _, rr := range *fa.Referrers() {
+							st, isStore := rr.(*ssa.Store)
+							if !isStore {
+								continue
+							}
+							if k, isConst := st.Val.(*ssa.Const); !isConst || !(k.Value == nil || k.Value.ExactString() == "false" || k.Value.ExactString() == "0") {
+								zero = false
+							}
+						}
 					}
 				}
 			}
